@@ -296,7 +296,12 @@ func (bc *boundCtx) checkedOnPath(v ssa.Value, at ssa.Instruction) bool {
 			pr, isP := stripConv(x).(*ssa.Parameter)
 			return isP && pr.Parent() != fn
 		}
-		if _, okc := core.ConstInt(bo.Y); okc && (vs(bo.X) || inHelper(bo.X)) {
+		// ... and the limit may be the helper's other parameter (withinLimit(size, limit), called with a constant)
+		_, okc := core.ConstInt(bo.Y)
+		if !okc && inHelper(bo.X) && inHelper(bo.Y) {
+			okc = true
+		}
+		if okc && (vs(bo.X) || inHelper(bo.X)) {
 			switch bo.Op {
 			case token.GTR, token.GEQ:
 				return true, true
